@@ -17,6 +17,36 @@ REPO = os.environ.get('ACB_REPO', '/repo')
 
 # name -> (property, [expected key substrings], [(file, old, new)])
 MUTANTS = {
+    # ------------------------------------------------------------------ C01
+    'c01_buy_drops_commission': ('C01', ['cost-base-inputs|Buy'], [
+        ('src/portfolio/bookkeeping/delta_list.rs', '                ) + (buy_specs.commission\n                    * buy_specs.commission_currency_and_rate().exchange_rate.into());', '                );')]),
+    'c01_commission_at_tx_rate': ('C01', ['commission-times-commission-rate|Buy'], [
+        ('src/portfolio/bookkeeping/delta_list.rs', '                ) + (buy_specs.commission\n                    * buy_specs.commission_currency_and_rate().exchange_rate.into());',
+         '                ) + (buy_specs.commission\n                    * buy_specs.tx_currency_and_rate.exchange_rate.into());')]),
+    'c01_roc_adds': ('C01', ['old-cost-base-combined-by|Roc'], [
+        ('src/portfolio/bookkeeping/delta_list.rs', 'GreaterEqualZeroDecimal::try_from(*old_acb - *acb_reduction)', 'GreaterEqualZeroDecimal::try_from(*old_acb + *acb_reduction)')]),
+    'c01_sell_acb_includes_commission': ('C01', ['cost-base-excluded-inputs|Sell'], [
+        ('src/portfolio/bookkeeping/delta_list.rs', '                new_acb_total = Some(new_share_balance * acb_per_share);', '                new_acb_total = Some(new_share_balance * acb_per_share + sell_specs.commission);')]),
+    'c01_split_changes_acb': ('C01', ['cost-base-changed-by-buy-sell-roc-sfla-only'], [
+        ('src/portfolio/bookkeeping/delta_list.rs', '            let share_diff = *new_share_balance - *pre_tx_status.share_balance;', '            new_acb_total = pre_tx_status.total_acb.map(|a| a * split_specs.ratio.pre_to_post_factor().into());\n            let share_diff = *new_share_balance - *pre_tx_status.share_balance;')]),
+    # ------------------------------------------------------------------ C03
+    'c03_sfla_for_registered': ('C03', ['sfla-only-for-non-registered'], [
+        ('src/portfolio/bookkeeping/delta_list.rs', '            if !ratio_of_sfl.numerator.is_zero() && !af.registered() {', '            if !ratio_of_sfl.numerator.is_zero() {')]),
+    'c03_insert_off_by_one': ('C03', ['inserted-directly-after-the-sale'], [
+        ('src/portfolio/bookkeeping/delta_list.rs', 'some_modified_txs.insert(i + new_tx_i + 1, new_tx);', 'some_modified_txs.insert(i + new_tx_i, new_tx);')]),
+    'c03_gain_plus_sfl': ('C03', ['reported-gain-is-loss-minus-denied-amount'], [
+        ('src/portfolio/bookkeeping/delta_list.rs', 'Some(*cap_loss - *delta_sfl_info.superficial_loss);', 'Some(*cap_loss + *delta_sfl_info.superficial_loss);')]),
+    'c03_amount_ignores_ratio': ('C03', ['sfla-amount-inputs'], [
+        ('src/portfolio/bookkeeping/delta_list.rs', '                        amount_per_share: NegDecimal::neg_1()\n                            * calculated_sfl_amount\n                            * af_ratio_posdecimal,',
+         '                        amount_per_share: NegDecimal::neg_1() * calculated_sfl_amount,')]),
+    # ------------------------------------------------------------------ C15
+    'c15_split_scales_acb': ('C15', ['split-arm-leaves-cost-base-and-gain-untouched'], [
+        ('src/portfolio/bookkeeping/delta_list.rs', '            let share_diff = *new_share_balance - *pre_tx_status.share_balance;', '            new_acb_total = pre_tx_status.total_acb.map(|a| a * split_specs.ratio.pre_to_post_factor().into());\n            let share_diff = *new_share_balance - *pre_tx_status.share_balance;')]),
+    'c15_expansion_rewrites_memo': ('C15', ['expansion-changes-affiliate-only'], [
+        ('src/portfolio/splits.rs', '                new_split.affiliate = affiliate.clone();', '                new_split.affiliate = affiliate.clone();\n                new_split.read_index = 0;')]),
+    'c15_backward_scan_ignores_split': ('C15', ['both-window-scans-apply-splits'], [
+        ('src/portfolio/bookkeeping/superficial_loss.rs', '            TxActionSpecifics::Split(split) => {\n                // Adjustment goes forwards in time for txs before the sale.\n                let new_split_adjustment =\n                    split_adjustment * split.ratio.pre_to_post_factor();\n                af_split_adjustments.insert(before_tx_affil, new_split_adjustment);\n            }\n            // ignored\n            TxActionSpecifics::Sell(_)',
+         '            // ignored\n            TxActionSpecifics::Split(_)\n            | TxActionSpecifics::Sell(_)')]),
     # ------------------------------------------------------------------ C02
     'c02_window_31': ('C02', ['last-day-is-30-days'], [
         ('src/portfolio/bookkeeping/superficial_loss.rs', 'settlement_date.saturating_add(Duration::days(30))', 'settlement_date.saturating_add(Duration::days(31))')]),
@@ -28,7 +58,11 @@ MUTANTS = {
         ('src/portfolio/bookkeeping/delta_list.rs', 'rust_decimal_macros::dec!(0.001);', 'rust_decimal_macros::dec!(0.01);')]),
     'c02_tolerance_applies_when_forced': ('C02', ['only-when-not-forced'], [
         ('src/portfolio/bookkeeping/delta_list.rs', '        if !specified_sfl.force {\n            // Perform validation', '        if !specified_sfl.force || tx.memo.is_empty() {\n            // Perform validation')]),
+    'c02_force_skips_no_loss_rejection': ('C02', ['force-only-affects-the-discrepancy-check'], [
+        ('src/portfolio/bookkeeping/delta_list.rs', '                } else if sell_specs.specified_superficial_loss.is_some() {', '                } else if sell_specs.specified_superficial_loss.as_ref().map(|s| !s.force).unwrap_or(false) {')]),
     # ------------------------------------------------------------------ C04
+    'c04_registered_gets_gain': ('C04', ['R4d'], [
+        ('src/portfolio/bookkeeping/delta_list.rs', '            // NOTE: commission plays no effect on sell order ACB\n', '            // NOTE: commission plays no effect on sell order ACB\n            capital_gains = Some(Decimal::ZERO);\n')]),
     'c04_zero_from_negative_one': ('C04', ['GreaterEqualZero>::zero|construct'], [
         ('src/util/decimal.rs', 'impl ConstrainedDecimal<GreaterEqualZero> {\n    pub fn zero() -> Self {\n        Self(Decimal::ZERO, PhantomData)',
          'impl ConstrainedDecimal<GreaterEqualZero> {\n    pub fn zero() -> Self {\n        Self(Decimal::NEGATIVE_ONE, PhantomData)')]),
